@@ -93,7 +93,7 @@ fn main() {
         }
     }
     let types = [RType::Counter, RType::Gauge, RType::Histogram, RType::Summary, RType::Untyped];
-    rep.rule = "the C04 family generator over all five metric types (every float class bit-exact incl. NaN, every string of the pool as help and label value, 0-2 (thorough 3) labels, 12 bucket/quantile shapes, every timestamp), all ordered pairs/triples of a 6-family basis as streams, gathered output of the registry enumeration, refused families (empty / absent name, no samples) at every stream position, and call histories (failing writer at every byte offset then encode; encode, mutate through generated setters and public fields, clone, re-encode). The byte stream must split into exactly one varint-length-delimited MetricFamily per family with nothing else, and decode (wire decoder driven by proto_model.proto; unknown fields, wrong wire types, repeated singular fields, bad UTF-8 are errors) to exactly the encoded families. distinct = distinct encoded byte streams".into();
+    rep.rule = "the C04 family generator over all five metric types (every float class bit-exact incl. NaN, every string of the pool as help and label value, 0-2 (thorough 3) labels, 12 bucket/quantile shapes, every timestamp), all ordered pairs/triples of a 6-family basis as streams, 20 streams placing a very large family (2 KiB token, 64+ KiB family, 400-bucket histogram) at every position among small ones, gathered output of the registry enumeration, refused families (empty / absent name, no samples) at every stream position, and call histories (failing writer at every byte offset then encode; encode, mutate through generated setters and public fields, clone, re-encode). The byte stream must split into exactly one varint-length-delimited MetricFamily per family with nothing else, and decode (wire decoder driven by proto_model.proto; unknown fields, wrong wire types, repeated singular fields, bad UTF-8 are errors) to exactly the encoded families. distinct = distinct encoded byte streams".into();
     rep.bounds = json!({"strings": STRS.len(), "floats": floats().len(), "types": 5});
 
     let mut run = |rep: &mut Report, fams: &[RFamily], group: &str| {
@@ -113,6 +113,10 @@ fn main() {
     };
     for f in gen_families(if thorough { 1 } else { 0 }, &types) {
         run(&mut rep, std::slice::from_ref(&f), "generated");
+    }
+    // streams mixing small families with very large ones
+    for st in big_streams() {
+        run(&mut rep, &st, "big-stream");
     }
     let basis = basis_families();
     for a in &basis {
